@@ -15,8 +15,12 @@ pub fn exact_build() -> bool {
     !cfg!(feature = "fastmath")
 }
 
+/// set by `--property-budgets`: judge by the property's own budget even in an exact-math build
+/// (the tighter 5e-5 of C20 applies only when the run is part of the C20 check)
+pub static PROPERTY_BUDGETS: std::sync::atomic::AtomicBool = std::sync::atomic::AtomicBool::new(false);
+
 pub fn budget_c03(t: TC, dir: usize) -> f64 {
-    if exact_build() {
+    if exact_build() && !PROPERTY_BUDGETS.load(std::sync::atomic::Ordering::Relaxed) {
         5e-5
     } else if t == TC::PerceptualQuantizer && dir == 1 {
         5.7e-4
@@ -310,7 +314,7 @@ fn run(ctx: &Ctx, roundtrip: bool) {
     ev::add_nontrivial(total * nontrivial_curves);
     ev::observe("distinct_f32_inputs", total);
     ev::observe("curve_directions", ncurves);
-    ev::observe("budget_regime", if exact_build() && !roundtrip { "exact-math build: 5e-5" } else { "property budgets" });
+    ev::observe("budget_regime", if exact_build() && !roundtrip && !PROPERTY_BUDGETS.load(std::sync::atomic::Ordering::Relaxed) { "exact-math build: 5e-5" } else { "property budgets" });
     ev::observe("linear_bit_inexact_pixels", linear_inexact.load(Relaxed));
     ev::observe("alias_mismatch_chunks", alias_mismatch.load(Relaxed));
     for r in table.iter().take(4) {
